@@ -1,14 +1,15 @@
-\* thorough, exhaustive: 2 users / 3 uploads, every initial attribute combination, one attribute change, one life-cycle event.
+\* thorough, exhaustive: 2 users / 3 uploads, every server status / friend / privilege, limit 0 raised once, one life-cycle event.
 SPECIFICATION Spec
 CONSTANTS
   UploadIds = {1, 2, 3}
   PerUser = 2
-  MaxSlots = 2
-  InitSlots = {1}
+  MaxSlots = 1
+  InitSlots = {0}
+  InitTruth = {"unknown"}
   AnyInitAttr = TRUE
   Statuses = {"unknown", "offline", "away", "online"}
-  SlotBudget = 0
-  AttrBudget = 1
+  SlotBudget = 1
+  AttrBudget = 0
   LifeBudget = 1
   TrackMgmt = TRUE
   GrantAll = FALSE
@@ -19,7 +20,10 @@ CONSTANTS
   WFriend = 5
   WPriv = 100
   StateChangeNotifies = TRUE
-  SlotsChangeNotifies = FALSE
+  SlotsChangeNotifies = TRUE
+  TaskEndNotifies = FALSE
+  RequeueTail = FALSE
+  TrackPerUser = TRUE
 INVARIANT TypeOK
 INVARIANT OnePerUser
 INVARIANT FlagsIffQueued
@@ -27,6 +31,8 @@ INVARIANT WakeIffRunnable
 INVARIANT NoDoubleTask
 INVARIANT TaskOnlyQueued
 INVARIANT OneTaskPerUser
+INVARIANT KnowledgeKept
+INVARIANT NoTaskWhileInFlight
 PROPERTY StartRespectsLimit
 PROPERTY NeverOffline
 PROPERTY PriorityHolds
